@@ -310,6 +310,18 @@ def run(case):
                 exp = cube.data[tuple(item)]
                 if rd.shape != exp.shape or not np.array_equal(rd, exp):
                     why.append("result differs from cube[item]")
+            # ---- the result is a cube in its own right (C04_recrop): cropping it again with the very same points
+            # (its own wcs, every axis kept) must select all of it
+            # (primary wcs only: a lookup table has no values beyond its last entry, so a point within half a pixel
+            # of the region's edge cannot be located in the cropped table - that is C19_outside, not a crop defect)
+            if not why and on_array and kd and not malformed and bad is None and wname == "wcs":
+                try:
+                    kw3 = dict(kwargs)
+                    r2 = (r.crop if use_objects else r.crop_by_values)(*pts, **kw3)
+                    if r2.data.shape != rd.shape or not np.array_equal(r2.data, rd):
+                        why.append(f"cropping the result again with the same points gives shape {r2.data.shape}, not the result itself {rd.shape}")
+                except Exception as e:  # noqa
+                    why.append(f"cropping the result again with the same points raised {exc_name(e)}")
     return {"out": out, "oracle": {"ok": not why, "why": "; ".join(why[:3]), "finding": None},
             "world": None if case["kind"] != "probe" else
             [[None if i in none_w_pt[pi_] else [Fr(float(x)).numerator, Fr(float(x)).denominator] for i, x in enumerate(w)] for pi_, w in enumerate(world_pts)]}
